@@ -53,6 +53,7 @@ TEMPLATES = [
     'W\rx', 'W\x0bx', 'W\x0cx', 'W\x1cx', 'W\x85x', 'W x', 'W' + 'z' * 100, 'W ' + ' '.join('w%d' % i for i in range(30)),
     'W """ x', "W ''' x", 'W \xe9 中', 'W\\n', 'W: x = 1', 'W\n  indented\n    more', 'W \x1f x', ' ', 'W\n \nx', 'W,', 'W )  # x',
     'W\t', 'W\n\t\nx', '\tW', 'W \t ', 'W\x0b', 'W x\xa0', 'W\t\nx\t',
+    'W {}', 'W {0} x', 'W {name}', 'W { x', 'W } x', 'W %s', 'W %d %(k)s', 'W 100%', 'W $x ${y}', 'W {{}}',
 ]
 TRAILABLE = ('list', 'tuple', 'set', 'dict')
 
@@ -263,6 +264,11 @@ def check_one(sh, recipe, cfg):
             pass
         sh.violation(key, 'syntax tree differs from the uncommented output: %r vs %r' % (text[:300], plain[:300]), case)
         return text
+    if cfg.get('max_seq_len') is not None:
+        # under truncation only inertness is judged here (the commented and the uncommented value are cut alike and no printer failed);
+        # which comments survive a cut is C10's / C11's business
+        sh.counters['inertness verified under max_seq_len'] += 1
+        return text
     try:
         words = comment_words(text)
     except (tokenize.TokenError, IndentationError, SyntaxError) as e:
@@ -412,6 +418,15 @@ def run_shard(sh):
         cfg = {'width': rng.choice(WIDTHS + [rng.randint(1, 120)]), 'ribbon_width': rng.randint(1, 120), 'indent': rng.randint(1, 8)}
         if check_one(sh, recipe, cfg) is not SKIP:
             sh.case((repr(recipe), sorted(cfg.items())))
+            if i % 3 == 0:
+                # (depth limits are left out: a commented str dict key is cut like any value while a bare one stays visible - the listed C11
+                #  finding - so the two outputs differ there for a reason that is not the comment's doing)
+                cfg2 = dict(cfg, max_seq_len=rng.choice([0, 1, 2, 3]))
+                if "'set'" in repr(recipe) or "'frozenset'" in repr(recipe):
+                    # a commented element is hashed by identity: the commented and the stripped set iterate differently, so a cut keeps different elements
+                    continue
+                check_one(sh, recipe, cfg2)
+                sh.case((repr(recipe), sorted(cfg2.items())))
         sh.counters['random shapes'] += 1
         if i % 500 == 0:
             sh.sample({'recipe': recipe, 'cfg': cfg})
